@@ -12,8 +12,8 @@ import (
 
 	tmsecp "github.com/cometbft/cometbft/crypto/secp256k1"
 	sdk "github.com/cosmos/cosmos-sdk/types"
-	didcrypto "github.com/medibloc/panacea-core/v2/x/did/client/crypto"
 	aoltypes "github.com/medibloc/panacea-core/v2/x/aol/types"
+	didcrypto "github.com/medibloc/panacea-core/v2/x/did/client/crypto"
 	didtypes "github.com/medibloc/panacea-core/v2/x/did/types"
 	pnfttypes "github.com/medibloc/panacea-core/v2/x/pnft/types"
 
